@@ -1713,3 +1713,63 @@ def register_chrono(E):
 _old_register_all7=register_all
 def register_all(E):
     register_chrono(E); _old_register_all7(E)
+
+# ----------------------------------------------------------------------------- more std::path (Unix semantics, concrete bytes)
+def _split_file(p):
+    """(dir part incl. trailing '/', file name) of a path string; trailing slashes ignored"""
+    q=p.rstrip('/')
+    if not q: return p,''
+    i=q.rfind('/')
+    return q[:i+1],q[i+1:]
+def _stem_ext(name):
+    if name in ('','..') : return name,None
+    i=name.rfind('.')
+    if i<=0: return name,None
+    return name[:i],name[i+1:]
+def _pstr(v): return need_conc(pb_bytes(v),'path operation').decode()
+def m_path_with_extension(e,run,a,f):
+    p=_pstr(a[0]); ext=_pstr(a[1]); d,name=_split_file(p)
+    if not name: return Agg('PathBuf',[mk_string(p)])
+    stem,_=_stem_ext(name)
+    return Agg('PathBuf',[mk_string(d+stem+('.'+ext if ext else ''))])
+def m_pathbuf_set_extension(e,run,a,f):
+    pb=deref(a[0]); p=need_conc(pb.f[0].b,'set_extension').decode(); ext=_pstr(a[1]); d,name=_split_file(p)
+    if not name: return Bool(False)
+    stem,_=_stem_ext(name); pb.f[0]=mk_string(d+stem+('.'+ext if ext else '')); return Bool(True)
+def m_path_extension(e,run,a,f):
+    d,name=_split_file(_pstr(a[0])); _,ext=_stem_ext(name)
+    return none() if ext is None else some(Ref(Cell(Agg('OsStr',[mk_string(ext)]))))
+def m_path_file_stem(e,run,a,f):
+    d,name=_split_file(_pstr(a[0]))
+    if not name or name=='..': return none()
+    stem,_=_stem_ext(name); return some(Ref(Cell(Agg('OsStr',[mk_string(stem)]))))
+def m_path_parent(e,run,a,f):
+    p=_pstr(a[0]); q=p.rstrip('/')
+    if not q: return none()
+    i=q.rfind('/')
+    if i<0: return some(Ref(Cell(Agg('Path',[mk_string('')]))))
+    return some(Ref(Cell(Agg('Path',[mk_string(q[:i] if i>0 else '/')]))))
+def m_path_with_file_name(e,run,a,f):
+    p=_pstr(a[0]); n=_pstr(a[1]); d,name=_split_file(p)
+    return Agg('PathBuf',[mk_string(d+n)])
+def m_path_to_path_buf(e,run,a,f): return Agg('PathBuf',[mk_string(_pstr(a[0]))])
+def m_path_is_absolute(e,run,a,f): return Bool(_pstr(a[0]).startswith('/'))
+def m_path_starts_with(e,run,a,f):
+    p=[c for c in _pstr(a[0]).split('/') if c not in('','.')]; q=[c for c in _pstr(a[1]).split('/') if c not in('','.')]
+    return Bool(p[:len(q)]==q and _pstr(a[0]).startswith('/')==_pstr(a[1]).startswith('/'))
+def m_path_display(e,run,a,f): return mk_string(_pstr(a[0]))
+def m_osstr_to_string_lossy(e,run,a,f): return Agg('Cow',[Ref(Cell(Str(pb_bytes(a[0]))))],0,'Borrowed')
+def m_path_as_os_str(e,run,a,f): return Ref(Cell(Agg('OsStr',[StringO(pb_bytes(a[0]))])))
+def register_path2(E):
+    M=E.model
+    M(r'^Path::with_extension$',m_path_with_extension); M(r'^PathBuf::set_extension$',m_pathbuf_set_extension)
+    M(r'^Path::extension$',m_path_extension); M(r'^Path::file_stem$',m_path_file_stem); M(r'^Path::parent$',m_path_parent)
+    M(r'^Path::with_file_name$',m_path_with_file_name); M(r'^Path::to_path_buf$',m_path_to_path_buf); M(r'^Path::is_absolute$',m_path_is_absolute)
+    M(r'^Path::starts_with$',m_path_starts_with); M(r'^Path::as_os_str$',m_path_as_os_str); M(r'^OsStr::to_string_lossy$',m_osstr_to_string_lossy)
+    M(r'^<PathBuf as AsRef<OsStr>>::as_ref$|^<Path as AsRef<OsStr>>::as_ref$',m_path_as_os_str)
+    M(r'^<(str|std::string::String|String|&str) as AsRef<(std::path::)?Path>>::as_ref$',m_path_new)
+    M(r'^<(str|std::string::String|String) as AsRef<OsStr>>::as_ref$',m_path_as_os_str)
+    M(r'^PathBuf::as_path$',m_path_deref)
+_old_register_all8=register_all
+def register_all(E):
+    _old_register_all8(E); register_path2(E)
